@@ -34,7 +34,9 @@ CLAIM = dict(
          "CHECKED numerically on the rot_orb / atommap / T arrays of every tested symmetrizer, not proved for Dwann. "
          "PARTIAL (checked only): Dwann / set_D_wann_from_projections produce a representation; the two-pass driver "
          "SymWann.symmetrize (new R-vectors, mode 'single', assembly over blocks); symmetrize_WCC; System_R glue. "
-         "The oracle covers every public entry point and the option space (use_symmetries_index subgroups; cutoff and "
+         "The oracle covers every public entry point, the public System_R.reorder() applied to the symmetrised system, and "
+         "the option space (reorder_back, checked against the default result in the original order on structures where "
+         "equally named atoms in different Wyckoff orbits are listed interleaved; use_symmetries_index subgroups; cutoff and "
          "cutoff_dict with values taken from the block maxima of the model: the result must equal the cutoff-free "
          "symmetrisation of the input with exactly the sub-cutoff blocks removed, be covariant and stay fixed under a "
          "further symmetrisation) and always refers to the group actually used.  Known findings: centre averaging for "
@@ -109,6 +111,10 @@ def structures(rng):
         "sc_3c_3d_1a": dict(lat=np.eye(3), pos=[[0, .5, .5], [.5, 0, .5], [.5, .5, 0], [.5, 0, 0], [0, .5, 0], [0, 0, .5],
                                                [0, 0, 0]],
                             names=["A"] * 3 + ["B"] * 3 + ["C"], proj=["A:s", "B:s", "C:p"], soc=False, heavy=9, multiblock=True),
+        "ortho_interleaved_s": dict(lat=np.diag([1, b, c]), pos=[[.25, 0, 0], [0, .5, .3], [.75, 0, 0]], names=["X"] * 3,
+                                    proj=["X:s"], soc=False, heavy=1, multiblock=True),
+        "p4mmm_interleaved_p": dict(lat=np.diag([1, 1, ca]), pos=[[0, .5, 0], [0, 0, x], [.5, 0, 0], [0, 0, -x]],
+                                    names=["X"] * 4, proj=["X:p"], soc=False, heavy=2, multiblock=True),
         "hex_A_p": dict(lat=_hex(1, ca), pos=[[0, 0, 0]], names=["A"], proj=["A:p"], soc=False, heavy=1),
         "hex_AB2_p": dict(lat=_hex(1, ca), pos=[[0, 0, 0], [1 / 3, 2 / 3, 0], [2 / 3, 1 / 3, 0]], names=["A", "B", "B"],
                           proj=["A:p", "B:p"], soc=False, heavy=2),
@@ -190,6 +196,7 @@ def build_direct(name, st, sub_seed, include_TR=True):
     from irrep.spacegroup import SpaceGroup
     from wannierberri.symmetry.sawf import SymmetrizerSAWF
     from wannierberri.symmetry.projections import Projection
+    from wannierberri.symmetry.wyckoff_position import split_into_orbits
     rs = np.random.RandomState((sub_seed + 17) % (2 ** 31))
     names = list(st["names"])
     types = {n: i + 1 for i, n in enumerate(dict.fromkeys(names))}
@@ -202,8 +209,10 @@ def build_direct(name, st, sub_seed, include_TR=True):
         for pr in st["proj"]:
             at, orb = [z.strip() for z in pr.split(":")]
             ploc = np.array([pos[i] for i, n in enumerate(names) if n == at])
-            projs.append(Projection(position_num=ploc, orbital=orb, spacegroup=sg, do_not_split_projections=True,
-                                    rotate_basis=False))
+            # one Projection per Wyckoff orbit (equally named atoms may belong to different orbits)
+            for suborbit in split_into_orbits(ploc, spacegroup=sg):
+                projs.append(Projection(position_num=ploc[suborbit], orbital=orb, spacegroup=sg,
+                                        do_not_split_projections=True, rotate_basis=False))
         sym = SymmetrizerSAWF.from_spacegroup_and_projections(spacegroup=sg, projections=projs)
     s_raw = random_model(rs, int(sym.num_wann), st["lat"], st["soc"])
     s = copy.deepcopy(s_raw)
@@ -243,6 +252,7 @@ def build_symmetrized(name, st, sub_seed, nR=None, want_raw=False):
         return s, sym, s0
     s_raw = copy.deepcopy(s0)
     s_raw.reorder(rec["idx"])
+    s_raw.__dict__["_c20_idx"] = list(rec["idx"])
     return s, sym, s0, s_raw
 
 
@@ -715,7 +725,78 @@ def cutoff_sweep(ctx, name, info, st, s_raw, sym, ops, rs, kf_c, worst, n_varian
     return True
 
 
-def check_structure(ctx, name, st, sub_seed, n_k, max_g, n_sub=2, tower=True, route="symmetrize", include_TR=True):
+def permuted_copy_matrices(system, perm):
+    """independent reference for a relabelling of the Wannier functions: {key: X[:, perm][:, :, perm]}, centres[perm]"""
+    perm = np.array(perm, dtype=int)
+    return {k: system.get_R_mat(k)[:, perm][:, :, perm] for k in system._XX_R}, system.wannier_centers_cart[perm]
+
+
+def same_model(ctx, tag, info, system, mats, centres, iRvec, what, scaleH):
+    i1 = {tuple(int(v) for v in r): i for i, r in enumerate(system.rvec.iRvec)}
+    i2 = {tuple(int(v) for v in r): i for i, r in enumerate(iRvec)}
+    worst = 0.0
+    for key, X2 in mats.items():
+        X1 = system.get_R_mat(key)
+        for r in set(i1) | set(i2):
+            a = X1[i1[r]] if r in i1 else 0
+            b = X2[i2[r]] if r in i2 else 0
+            worst = max(worst, float(np.abs(a - b).max()))
+    dc = float(np.abs(system.wannier_centers_cart - centres).max())
+    if not max(worst, dc) < 1e-10 * scaleH:
+        ctx.fail(f"{tag}: {what}: matrices differ by {worst:.3e}, centres by {dc:.3e}", info)
+        return False
+    return True
+
+
+def relabelling_checks(ctx, name, info, st, s, s0, s_raw, sym, ops, rs, kf_c, worst, route):
+    """relabelling the Wannier functions must not matter: (i) the public System_R.reorder() on the symmetrised system gives
+    the independently permuted matrices and still a valid symmetric system (derived state included); (ii) for the
+    high-level route, symmetrize(..., reorder_back=True) gives the result of the default call in the ORIGINAL order"""
+    scaleH = max(1.0, np.abs(s_raw.get_R_mat("Ham")).max())
+    allops = list(range(len(ops)))
+    if s.num_wann > 1:
+        perm = rs.permutation(s.num_wann)
+        sp = copy.deepcopy(s)
+        touch(sp)
+        with quiet():
+            sp.reorder(perm)
+        mats, cen = permuted_copy_matrices(s, perm)
+        tag = f"{name}[after System_R.reorder({perm.tolist()})]"
+        pinfo = dict(info, reorder=perm.tolist())
+        ctx.count("oracle.history.public_reorder")
+        if not same_model(ctx, tag, pinfo, sp, mats, cen, s.rvec.iRvec, "reorder() is not the permutation of the matrices "
+                          "and centres", scaleH):
+            return False
+        rawp = copy.deepcopy(s_raw)
+        with quiet():
+            rawp.reorder(perm)
+        if not verify_result(ctx, tag, pinfo, st, sp, rawp, ops, allops, rs, kf_c, 1, 4, worst):
+            return False
+    if route == "symmetrize":
+        idx = s_raw.__dict__.get("_c20_idx")
+        sb = copy.deepcopy(s0)
+        touch(sb)
+        kw = dict(magmom=st["magmom"]) if st.get("magmom") is not None else {}
+        with quiet():
+            sb.symmetrize(proj=list(st["proj"]), atom_name=list(st["names"]), positions=np.array(st["pos"], dtype=float),
+                          soc=st["soc"], reorder_back=True, **kw)
+        inv = np.argsort(np.array(idx))
+        mats, cen = permuted_copy_matrices(s, inv)
+        moved = list(idx) != list(range(len(idx)))
+        tag = f"{name}[symmetrize(reorder_back=True), Wannier functions {'permuted ' + str(list(idx)) if moved else 'not permuted'}]"
+        binfo = dict(info, reorder_back=True, new_wann_indices=list(idx))
+        ctx.count("oracle.option.reorder_back" + (".permuting" if moved else ".identity"))
+        ctx.case(signature=(name, info["sub_seed"], "reorder_back"), nontrivial=moved)
+        if not same_model(ctx, tag, binfo, sb, mats, cen, s.rvec.iRvec, "the result is not the default result in the original "
+                          "order", scaleH):
+            return False
+        if not verify_result(ctx, tag, binfo, st, sb, s0, ops, allops, rs, kf_c, 1, 4, worst):
+            return False
+    return True
+
+
+def check_structure(ctx, name, st, sub_seed, n_k, max_g, n_sub=2, tower=True, route="symmetrize", include_TR=True,
+                    relabel=True):
     """one random model in one structure: the full group through System_R.symmetrize, then the option space of
     symmetrize2 (use_symmetries_index = subgroups, cutoff) - always checked against the group actually used"""
     info = dict(structure=name, sub_seed=sub_seed, proj=st["proj"], soc=st["soc"], magmom=st.get("magmom"),
@@ -764,6 +845,9 @@ def check_structure(ctx, name, st, sub_seed, n_k, max_g, n_sub=2, tower=True, ro
             return
         if nsym > 1 and matrices_diff(s0, s) < 1e-6:
             ctx.note(f"{name}: symmetrisation left the random input unchanged (suspicious)")
+        # ---- relabelling: public reorder() and the option reorder_back
+        if relabel and not relabelling_checks(ctx, name, info, st, s, s0, s_raw, sym, ops, rs, kf_c, worst, route):
+            return
         # ---- option space of symmetrize2: subgroups selected with use_symmetries_index
         for label, use in subgroups_to_try(ops, rs, n_sub):
             tag = f"{name}[use_symmetries_index={label}, {len(use)} of {nsym} operations]"
@@ -878,16 +962,20 @@ def oracle(ctx, scale):
         multiblock = bool(S[name].get("multiblock"))
         if multiblock:        # many blocks make every symmetrize2 call expensive: full group + one subgroup at most
             n_sub = min(n_sub, 1)
+        # relabelling checks (public reorder(), reorder_back=True): quick - on the first structure and on the one with
+        # several blocks / interleaved orbits; thorough - on the first model of every structure
+        relabel = (i < len(S)) if ctx.tier == "thorough" else (i % 5 in (0, 4))
         check_structure(ctx, name, S[name], sub, n_k=ctx.n(2, 3), max_g=ctx.n(6, 48), n_sub=n_sub,
-                        tower=ctx.tier == "thorough")
+                        tower=ctx.tier == "thorough", relabel=relabel)
         if ctx.failures and not ctx.searching:
             break
         # the other public entry point: symmetrize2(symmetrizer) called directly with a hand-built SymmetrizerSAWF
         # (quick: on the structures that did not get the option sweep and the first one; thorough: once per structure)
         if (ctx.tier == "thorough" and i < len(S) and S[name]["heavy"] <= 3) or \
-                (ctx.tier == "quick" and (n_sub == 0 or i % 5 == 0)):
+                (ctx.tier == "quick" and i % 5 in (0, 3)):
             check_structure(ctx, name, S[name], rng.getrandbits(40), n_k=ctx.n(1, 2), max_g=ctx.n(6, 48),
-                            n_sub=0 if multiblock else 1, tower=False, route="symmetrize2",
+                            n_sub=0 if (multiblock or ctx.tier == "quick") else 1, tower=False, route="symmetrize2",
+                            relabel=ctx.tier == "thorough",
                             include_TR=(i % 2 == 0))
         if ctx.failures and not ctx.searching:
             break
